@@ -560,7 +560,12 @@ func sortedTasks(tasks map[string]*Task) []*Task {
 }
 
 func sortByCreatedAt(tasks []*Task) {
+	// Ties are broken by ID: the slice comes from a map, so without a total order two items
+	// with the same created_at (merged logs, plan) would be listed in a different order each run.
 	sort.Slice(tasks, func(i, j int) bool {
+		if tasks[i].CreatedAt.Equal(tasks[j].CreatedAt) {
+			return tasks[i].ID < tasks[j].ID
+		}
 		return tasks[i].CreatedAt.Before(tasks[j].CreatedAt)
 	})
 }
